@@ -42,12 +42,20 @@ pub struct Scenario {
     pub args: Args,
 }
 
-/// Variants of a content that differ from it only in the final newline or the line-ending style.
+/// Variants of a content that differ from it only in the final newline, the line-ending style or
+/// at the edges of the text: a byte order mark or another invisible character in front, blank lines
+/// or blanks before or after (what an editor or a checkout may add; the library treats all of it as
+/// ordinary text, so must every front end).
 fn content_variant(r: &mut Rng, c: &str) -> String {
-    match r.below(8) {
+    match r.below(14) {
         0 => c.strip_suffix('\n').unwrap_or(c).to_string(),
         1 => c.replace('\n', "\r\n"),
         2 => format!("{}\n", c),
+        3 => format!("\u{feff}{}", c),
+        4 => c.replace('\n', "\r"),
+        5 => format!("\n\n{}", c),
+        6 => format!("{}  \n\n", c),
+        7 => format!("{}{}", ["\u{200b}", "\u{a0}", " ", "\t", "\u{2028}", "\u{feff}\u{feff}"][r.below(6)], c),
         _ => c.to_string(),
     }
 }
